@@ -38,14 +38,14 @@ LEVEL_NOTE = ("PROVED for all byte strings: only the hand-written byte-level dec
 TRUSTED_BASE = [
     "models coq/Dec/BerModel.v, coq/Dec/ByteModels.v, coq/Dec/Asn1Model.v (encoding/asn1 of Go 1.23, from its source) written by hand from x509/ber.go, x509/pkcs7.go, x509/pkcs8.go, x509/utils.go, sm2/sm2.go, sm2/utils.go, gmtls/ticket.go, gmtls/gm_handshake_messages.go, gmtls/gm_key_agreement.go; tied by the correspondence run of this check",
     "checked-access layer coq/Dec/Access.v: slices modelled with cap = len",
-    "translator target 'dec' (maxBERDepth, sm2 P and N, ticketKeyNameLen) -> coq/Gen/DecConsts.v; target 'asn1schemas' (struct declarations and asn1 tags of x509, pkcs12, sm2 and GOROOT crypto/x509/pkix -> coq/Gen/Asn1Schemas.v; its root table of Unmarshal destinations is a list in the target; x509.nameConstraints / generalSubtree (ia5 string fields) are excluded from the model and corpus-checked: certificates with permitted / excluded / critical / non-critical name constraints of several subtree kinds and mutants inside that extension value are in the corpus)",
+    "translator target 'dec' (maxBERDepth, sm2 P and N, ticketKeyNameLen) -> coq/Gen/DecConsts.v, and the two width limits of readObject's long-form length (numberOfBytes > 4, numberOfBytes == 4) -> coq/Gen/DecBerLen.v; target 'asn1schemas' (struct declarations and asn1 tags of x509, pkcs12, sm2 and GOROOT crypto/x509/pkix -> coq/Gen/Asn1Schemas.v; its root table of Unmarshal destinations is a list in the target; x509.nameConstraints / generalSubtree (ia5 string fields) are excluded from the model and corpus-checked: certificates with permitted / excluded / critical / non-critical name constraints of several subtree kinds and mutants inside that extension value are in the corpus)",
     "extraction: ExtrOcamlBasic only; OCaml 4.13.1 + dune; runner ocaml/dec/main.ml and ocaml/conv.ml.tmpl",
     "Go driver harness/cmd/c18 (mutation generator, DER walker, recover()/deadline wrapper hx.Guard, second timed run + runtime.MemStats for expensive calls); hook files x509/verif_decoders_verif.go, gmtls/verif_decoders_verif.go, {x509,pkcs12,sm2}/verif_asn1schemas_verif.go",
     "encoding/asn1, encoding/pem, encoding/hex, math/big, crypto/* of Go 1.23: 'returns a value or an error' (exercised by the corpus, not verified)",
 ]
 ASSUMPTIONS = [
     "byte strings are lists of N below 256 (bytes_ok) where the statement says so",
-    "Go int is 64 bit (lengths up to 2^31-1 read by readObject do not overflow)",
+    "Go int is 64 bit and slices are shorter than 2^62 bytes (then offset+length of readObject does not wrap: C18_ber_content_end_no_wrap, from the width limit read from the source)",
     "block cipher / HMAC / CTR / elliptic-curve operations behind the gates return without panicking when their documented preconditions (IV length, whole blocks) hold; the preconditions themselves are part of the models (Panic otherwise)",
     "cost of ber2der is counted in calls of readObject (each call does work bounded by the bytes it consumes plus the copies made by EncodeTo)",
 ]
@@ -53,7 +53,7 @@ RULE = ("corpus = valid encodings made by the library itself (SM2 and RSA certif
         "orderings and RSA), signed and degenerate, PKCS#8 with and without password in DER and PEM, public keys, hex keys, PKCS#12, SM2 "
         "ciphertexts (raw both orderings, ASN.1), compressed points, signatures, SM4 key PEM, all handshake message types, session state, "
         "tickets, GM key-exchange bodies); from each: every truncation, every byte replaced by {00,01,7f,80,ff,b^1,b^80}, every TLV length "
-        "rewritten to {0,len-1,len+1,0x80,0x84ffffffff}, every TLV tag swapped among 11 universal tags (quick tier: TLV rewrites all, the "
+        "rewritten to {0,len-1,len+1,0x80,0x84ffffffff}, long-form lengths of every width (1..10, 126, 127 length octets) with values around each width's limits (all ff, 7f ff.., 80 00.., 2^31-1..2^31+1, 2^32-1..2^32+1, 2^63-1-k for k <= 40, 2^63, 2^64-1-k) on primitive and constructed tags, alone, after a sibling and nested in definite / indefinite constructed values, through the ber2der model and through ber2der / ParsePKCS7, every TLV tag swapped among 11 universal tags (quick tier: TLV rewrites all, the "
         "rest sampled at a fixed stride per base; thorough: all), empty input, random strings; handshake messages additionally get structure-aware mutants (harness/cmd/c18/tlstree.go: the message is parsed into its tree of length-prefixed vectors; the content of each vector becomes empty / 1 / 2 bytes / one shorter / one longer, list elements and extensions move first / last / alone, are duplicated or dropped, extensions of every known and of unknown types are inserted with tiny bodies, every enclosing length recomputed); BER nesting 1..200 through the model and "
         "1000/10000 (definite and indefinite), 20000 siblings, the repaired overlap family through the implementation; certificate / CSR / CRL shapes with every extension parseCertificate knows (hand-made values for all its branches, DSA / RSA keys assembled by hand, CSR with extension request, CRL with entry extensions) and every extension value mutated on its own inside a correctly encoded, signed certificate (harness/cmd/c18/certshapes.go); cold start (op COLD, harness/cmd/c18/cold.go): one call of each decoder family on a valid, a damaged and a halved input, and the compressed-point forms, each in a fresh re-executed child process that has built no key and no corpus before; size ladders per decoder and shape for the relative cost (op LAD, harness/cmd/c18/ladder.go: growth exponent of CPU time and allocation above 1.7 is a failure; quick: six ladders to 100 KB rotating with the seed, thorough: 22 to 3 MB); op A1G: every element at any depth of every DER object of the corpus is offered to each of the 75 Go root types, accepted ones (largest first) are bases for the same mutations, plus crafted families (harness/cmd/c18/asn1schemas.go). A case is "
         "non-trivial when its input is non-empty; distinct = distinct case text")
